@@ -142,6 +142,10 @@ skip_object(const uint8_t * buf, const uint8_t * end)
 
 	/* Skip entries until we get to the end. */
 	do {
+		/* If we've run out of input, stop. */
+		if (buf == end)
+			return (end);
+
 		/* Skip a string and optional whitespace. */
 		buf = skip_string(buf, end);
 		buf = skip_ws(buf, end);
